@@ -177,6 +177,19 @@ class SymB:
     def dtype(self, name):
         return np.dtype(name)
 
+    def carray_col(self, arr, j):
+        return self.I.np.getitem(arr, (slice(None), j)).copy()
+
+    def series(self, lib, arr, name=None, numeric=True, has_nulls=False):
+        from .libstubs import Series
+        if not numeric:
+            arr = Arr.from_list(["a"] * arr.shape[0], arr.shape, object)
+        return Series(self.I, lib, arr, name, numeric, has_nulls)
+
+    def frame(self, lib, cols):
+        from .libstubs import Frame
+        return Frame(self.I, lib, list(cols), {k: (v if hasattr(v, "lib") else self.series(lib, v, k)) for k, v in cols.items()})
+
 
 class ConcB:
     """concrete input builder: same calls, real objects, values from a model"""
@@ -251,6 +264,23 @@ class ConcB:
 
     def dtype(self, name):
         return np.dtype(name)
+
+    def series(self, lib, arr, name=None, numeric=True, has_nulls=False):
+        vals = list(arr) if numeric else ["a"] * len(arr)
+        if lib == "pandas":
+            import pandas
+            return pandas.Series(vals, name=name, dtype=(arr.dtype if numeric else object))
+        import polars
+        if has_nulls:
+            vals = [None] + vals[1:] if vals else vals
+        return polars.Series(name if name is not None else "", vals)
+
+    def frame(self, lib, cols):
+        if lib == "pandas":
+            import pandas
+            return pandas.DataFrame({k: (v if not isinstance(v, np.ndarray) else v) for k, v in cols.items()})
+        import polars
+        return polars.DataFrame({k: v for k, v in cols.items()})
 
 
 class PreconditionFalse(Exception):
